@@ -10,6 +10,7 @@
 package inssvc
 
 import (
+	"bytes"
 	"context"
 	"io"
 	"net/http"
@@ -95,8 +96,10 @@ type Harness struct {
 
 	Rec *Recorder
 
-	runWG   sync.WaitGroup
-	stopped bool
+	runWG      sync.WaitGroup
+	stopped    bool
+	stoppedOne bool            // a case stopped a service itself (Stop)
+	basePush   map[string]bool // doPush goroutines left over by earlier cases (see PushGoroutines)
 }
 
 var poolsOnce sync.Once
@@ -153,6 +156,7 @@ func New(cfg Config) *Harness {
 
 	h := &Harness{Cfg: cfg, DB: fakech.NewServer(), Node: node, Svc: map[Kind]*Proxy{}}
 	h.Rec = newRecorder(h.DB)
+	h.basePush = PushGoroutines()
 
 	interval := time.Hour
 	if cfg.IntervalMs > 0 {
@@ -246,7 +250,56 @@ func (h *Harness) FlushPending(k Kind) []bool {
 }
 
 // Stop stops one service (its Run loops return).
-func (h *Harness) Stop(k Kind) { h.Svc[k].Real.Stop() }
+func (h *Harness) Stop(k Kind) { h.stoppedOne = true; h.Svc[k].Real.Stop() }
+
+// PushGoroutines counts the goroutines that are inside controller.doPush's retry closure
+// (looked up in a dump of all goroutine stacks). doParse answers on the first failed part
+// and may do so before the goroutines of its other parts have even made their first
+// Request, so "every recorded submission is answered" does not yet mean that no qryn
+// goroutine can still call Request; a goroutine that can has a doPush frame. The result is
+// the set of their goroutine ids (goroutines of an earlier case that stopped a service
+// itself stay blocked for ever on promises nobody resolves; they are told apart by id).
+func PushGoroutines() map[string]bool {
+	buf := make([]byte, 1<<20)
+	for {
+		n := runtime.Stack(buf, true)
+		if n < len(buf) {
+			buf = buf[:n]
+			break
+		}
+		buf = make([]byte, 2*len(buf))
+	}
+	ids := map[string]bool{}
+	for _, g := range bytes.Split(buf, []byte("\n\n")) {
+		if !bytes.Contains(g, []byte("writer/controller.doPush.func1")) {
+			continue
+		}
+		// "goroutine 123 [chan receive]:"
+		if f := bytes.Fields(g); len(f) >= 2 {
+			ids[string(f[1])] = true
+		}
+	}
+	return ids
+}
+
+// Quiet tells whether the writer is quiescent: every submission answered, every retry chain
+// ended, no goroutine left inside doPush. Checked twice.
+func (h *Harness) Quiet() bool {
+	for i := 0; i < 2; i++ {
+		if !h.Rec.Settled(h.Cfg.Attempts()) {
+			return false
+		}
+		for id := range PushGoroutines() {
+			if !h.basePush[id] {
+				return false
+			}
+		}
+		if i == 0 {
+			time.Sleep(200 * time.Microsecond)
+		}
+	}
+	return true
+}
 
 // Close stops every service, frees every gated call and waits for the Run loops.
 func (h *Harness) Close() {
@@ -258,6 +311,25 @@ func (h *Harness) Close() {
 	h.DB.SetDecider(nil)
 	h.DB.ClearScript()
 	h.DB.RefuseConnect(0)
+	// Shutdown is outside every property's statement, and InsertServiceV2.Request reads
+	// svc.running without the lock while Run writes it on exit: no qryn goroutine of the case
+	// may still be able to call Request when Stop is issued. Everything is accepted and
+	// flushed until the writer is quiescent (bounded; a case that stopped a service itself
+	// cannot become quiescent and does not wait).
+	wait := 20 * time.Second
+	if h.stoppedOne {
+		wait = 50 * time.Millisecond
+	}
+	for dl := time.Now().Add(wait); time.Now().Before(dl); {
+		if h.Quiet() {
+			break
+		}
+		h.DB.ReleaseAll(nil)
+		for _, k := range Kinds {
+			h.Svc[k].Real.PlanFlush()
+		}
+		time.Sleep(300 * time.Microsecond)
+	}
 	for _, k := range Kinds {
 		h.Svc[k].Real.Stop()
 	}
